@@ -51,6 +51,9 @@ func (c *typeDefFirstChecker) walkDecl(decl ast.Decl) {
 		if decl.Recv == nil {
 			return
 		}
+		if len(decl.Recv.List) == 0 {
+			return // `func () F() {}`: a syntax error, but the file is still analysed
+		}
 		receiver := decl.Recv.List[0]
 		typeName := c.receiverType(receiver.Type)
 		c.trackedTypes[typeName] = true
